@@ -13,14 +13,6 @@ import BpProofs.Props.C15
 namespace Bp
 open Gen
 
-/-- a singular Timestamp (`isDur = false`) or Duration (`isDur = true`) field -/
-structure TimeField (f : FieldD) (isDur : Bool) : Prop where
-  ty : f.ty = PType.message
-  nw : f.wraps = Option.none
-  kind : f.kind = (if isDur then MsgKind.duration else MsgKind.timestamp)
-  num : numOk f.num = true
-  rep : f.repeated = false
-
 /-! ### the two-field message `secNanosD` -/
 
 /-- `seconds`, int64 #1 -/
